@@ -74,6 +74,10 @@ CLAIMS = {
         "text": "Theorems `crcSer_over_any` (over ANY inner flavour the CRC modifier forwards the same bytes byte-wise and then the checksum), `crc_over`, `cobs_over`, and the headline `crc_then_cobs` (+ `_alloc/_hvec/_slice`): for every lawful indexable storage, checksum-then-COBS output is exactly Spec.cobsEncode (enc v ++ LE checksum) ++ [0]; `unstack` / `stack_roundtrip` (COBS-decode then CRC-checked decode recovers the value and the remainder); `user_flavor_sees_plain(_stack)` (a user flavour receives exactly emit v, in order; with the default try_extend exactly the bytes of enc v one by one; under the CRC modifier enc v ++ checksum).",
         "note": GENERIC_NOTE,
     },
+    "C14": {
+        "text": "Spec: `conforms : CallTree -> Schema -> Bool` (kinds, field names and order, variant index/name/kind, arity, element types; the schema-of-schema kind decided by reconstructing the schema value) and a schema-driven reader `schemaParse` that knows nothing but the schema. Theorems: `schema_reader(_bytes)` — EVERY conforming call tree's encoding is parsed by the reader, consuming it exactly (the 'consequently' clause, incl. the .schema kind); `schema_conforms` — for a model of every built-in Schema impl and of #[derive(Schema)] (RTy grammar: all impl rows incl. heapless/uuid/chrono/nalgebra/Key/schema-of-schema, derive forms unit/newtype/tuple/named, enums) and of what serde / serde-derive emit for the same types, every value's call tree conforms to the type's schema (induction over the type grammar); `schema_describes_serialize` combines both. A genuine defect found this way (raw identifiers: the derive named r#type as \"r#type\", serde as \"type\"; `raw_field_never_conforms`) is repaired in /repo (fix: 736e5a6). Tied to the code on REAL data: recorded call trees, real SCHEMA constants and real bytes of ~150 concrete types are checked against the Lean spec each run.",
+        "note": GENERIC_NOTE + " serde's and third-party Serialize impls are modelled; the run-time check uses recorded real call trees, so a wrong model of serde cannot mask a real mismatch.",
+    },
 }
 
 _PENDING = "not claimed yet: the technique applies (see DESIGN.md §6); model/correspondence for this property is still being built in this session"
